@@ -39,8 +39,9 @@ large scopes stay informative) and are reported there with pinned witnesses:
     SplitDistribution): freq.value / freq.getitem / consensus.support / consensus.below-threshold
     with `use_tree_weights=False` on the TreeArray / TreeList.consensus routes;
   - an unrooted 2-leaf tree counts its only split twice (frequency 2.0);
-  - an unrooted tree with a unifurcation at the root or on a root child counts one split twice
-    (encode_bipartitions collapses the basal bifurcation before suppressing unifurcations);
+  - (repaired in /repo meanwhile, cases kept) an unrooted tree with a unifurcation at the root or
+    on a root child counted one split twice (encode_bipartitions collapsed the basal bifurcation
+    before suppressing unifurcations);
   - dendropy.calculate.treesum.consensus_tree raises TypeError whenever the root edge has no
     length (route `treesum.consensus_tree`; the other scopes call TreeSummarizer.tree_from_splits
     directly, which works).
@@ -582,9 +583,9 @@ def gen_exhaustive(n, kmax, scope, kmin=1):
 
 
 def gen_random(rng, count, scope, nmin=5, nmax=7, kmin=2, kmax=5, p_unif=0.0, removed=False, all_routes=False):
-    """p_unif: unifurcations above any node of rooted samples; in unrooted samples only above
-    nodes of depth >= 2 (a unifurcation at the root or on a root child of an unrooted tree
-    makes the library count one split twice: recorded in scope `corner`)"""
+    """p_unif: unifurcations above any node, the root and the root children of unrooted samples
+    included (these made the library count one split twice until encode_bipartitions was
+    repaired in /repo; scope `corner` keeps pinned cases of that class)"""
     for i in range(count):
         n = rng.randint(nmin, nmax)
         labels = K.LAB[:n]
@@ -597,7 +598,7 @@ def gen_random(rng, count, scope, nmin=5, nmax=7, kmin=2, kmax=5, p_unif=0.0, re
         # a few base topologies, repeated with small probability of change, so that
         # frequencies between 0 and 1 and ties occur
         rooted = rng.choice([True, False])
-        md = 0 if rooted else 2
+        md = 0
         base = [K.random_spec(rng, live, p_poly=rng.choice([0.0, 0.2, 0.5]), p_unif=p_unif, unif_min_depth=md) for _ in range(rng.randint(1, 3))]
         trees = [rng.choice(base) if rng.random() < 0.7 else K.random_spec(rng, live, p_poly=0.2, p_unif=p_unif, unif_min_depth=md) for _ in range(k)]
         yield dict(scope=scope, labels=labels, removed=rem, trees=trees, rooted=rooted,
